@@ -74,10 +74,32 @@ pub fn c11(ctx: &mut Ctx, tier: &str, seed: u64) {
             #[cfg(feature = "std")]
             {
                 let abs = if win { WindowsPath::new(s).is_absolute() } else { UnixPath::new(s).is_absolute() };
+                let a = if win { WindowsPath::new(s).absolutize().map(|x| x.into_vec()) } else { UnixPath::new(s).absolutize().map(|x| x.into_vec()) };
                 if abs {
-                    let a = if win { WindowsPath::new(s).absolutize().map(|x| x.into_vec()) } else { UnixPath::new(s).absolutize().map(|x| x.into_vec()) };
-                    if a.ok().as_deref() != Some(n.as_slice()) {
+                    if a.as_ref().ok().map(|v| v.as_slice()) != Some(n.as_slice()) {
                         ctx.fail("absolutize-of-absolute-is-normalize", None, rp.clone(), String::new());
+                    }
+                } else {
+                    // relative: the current directory (converted to this encoding), joined, normalised
+                    let cwd = typed_path::utils::current_dir().expect("cwd");
+                    let want = if win {
+                        cwd.with_encoding::<typed_path::WindowsEncoding>().join(WindowsPath::new(s)).normalize().into_vec()
+                    } else {
+                        cwd.with_encoding::<typed_path::UnixEncoding>().join(UnixPath::new(s)).normalize().into_vec()
+                    };
+                    if a.as_ref().ok() != Some(&want) {
+                        ctx.fail("absolutize-of-relative-is-cwd-join-normalize", None, rp.clone(), format!("got {:?} want \"{}\"", a.as_ref().map(|v| lossy(v)).ok(), lossy(&want)));
+                    }
+                }
+                // the typed and UTF-8 forms delegate
+                let ta = tp.absolutize().map(|x| x.into_vec()).ok();
+                if ta != a.as_ref().ok().cloned() {
+                    ctx.fail("typed-absolutize-agrees", None, rp.clone(), String::new());
+                }
+                if let Ok(st) = std::str::from_utf8(s) {
+                    let ua = if win { Utf8WindowsPath::new(st).absolutize().map(|x| x.into_string().into_bytes()).ok() } else { Utf8UnixPath::new(st).absolutize().map(|x| x.into_string().into_bytes()).ok() };
+                    if ua != a.as_ref().ok().cloned() {
+                        ctx.fail("utf8-absolutize-agrees", None, rp.clone(), String::new());
                     }
                 }
             }
